@@ -7,6 +7,7 @@ from typing import TYPE_CHECKING
 from ._helper import (
     NamingConvention,
     _convert_name_to_convention,
+    _convert_path_to_convention,
     _create_name_annotation,
     _get_shortest_public_reexport,
     _replace_if_safeds_keyword,
@@ -156,7 +157,7 @@ def _create_outside_package_class(
 
             # package name & annotation
             python_module_path = ".".join(path_parts)
-            module_path_camel_case = _convert_name_to_convention(python_module_path, naming_convention)
+            module_path_camel_case = _convert_path_to_convention(python_module_path, naming_convention)
             module_name_info = ""
             if python_module_path != module_path_camel_case:
                 module_text += f'@PythonModule("{python_module_path}")\n'
